@@ -376,6 +376,7 @@ def finish(prop, tier, seed, t0, result, models, samples, extra_cov=None, assump
     other = {}
     disputes = []
     drift = {}
+    other_unmatched = {}
     model_viol = [m for m in models if not m["ok"]]
     for mm in result["mismatches"]:
         if mm["prop"] == "SPEC":
@@ -386,6 +387,19 @@ def finish(prop, tier, seed, t0, result, models, samples, extra_cov=None, assump
             continue
         if mm["prop"] != prop:
             other[mm["prop"]] = other.get(mm["prop"], 0) + 1
+            # is it one of the recorded findings of that other property?  if not, keep one replay file per reason so that the
+            # reader can check that the other property's own plan reaches this class (it must: this check only notes it)
+            if not any(finding_matches(fd, mm["prop"], mm["event"], fmts) and
+                       (not fd.get("match", {}).get("why") or fd["match"]["why"] in mm["why"]) for fd in findings):
+                key = (mm["prop"], mm["why"][:60])
+                if key not in other_unmatched:
+                    h = hashlib.sha1(json.dumps(mm["event"], sort_keys=True).encode()).hexdigest()[:10]
+                    path = os.path.join(rdir, "%s-seen-by-%s-%s.json" % (mm["prop"], prop, h))
+                    with open(path, "w") as f:
+                        json.dump({"property": mm["prop"], "why": mm["why"], "event": mm["event"], "episode": mm["episode"],
+                                   "cases": [strip_case(e) for e in mm["episode"]]}, f)
+                    other_unmatched[key] = [0, path]
+                other_unmatched[key][0] += 1
             continue
         hit = None
         for fd in findings:
@@ -413,6 +427,9 @@ def finish(prop, tier, seed, t0, result, models, samples, extra_cov=None, assump
         print("KNOWN-FINDING: property=%s %s (%s; %d events this run)" % (prop, fd["description"], fid, cnt), flush=True)
     for why, cnt in sorted(drift.items()):
         print("NOTE: model drift, not a violation: %s (%d events); the design-level models describe the formula, the trace clauses still judge the code" % (why, cnt), flush=True)
+    for (p2, why), (cnt, path) in sorted(other_unmatched.items()):
+        print("NOTE: %d event(s) contradict %s and match none of its recorded findings (%s); replay with: python3 tools/run_check.py %s --replay %s"
+              % (cnt, p2, why, p2, path), flush=True)
     for p2, cnt in sorted(other.items()):
         print("NOTE: %d event(s) of this run also contradict %s (reported by that property's check)" % (cnt, p2), flush=True)
     cov = {
@@ -427,6 +444,7 @@ def finish(prop, tier, seed, t0, result, models, samples, extra_cov=None, assump
         "known_findings_hit": {k: v[1] for k, v in known_hit.items()},
         "other_property_mismatches": other,
         "model_drift_notes": drift,
+        "other_property_mismatches_not_among_recorded_findings": {"%s: %s" % k: v[0] for k, v in other_unmatched.items()},
         "exhaustive": False,
     }
     if extra_cov:
